@@ -73,6 +73,22 @@ def run(ctx):
         mreg, mr = sess.parse(mtext)
         if mreg is None or dump(sess.dumps[mreg]) != dump(r[5]):
             ctx.failure('the marker of %r is not the marker denoted by %r' % (text, mtext), {'entry': 'Requirement::<VerbatimUrl>::from_str', 'input': text})
+    # FromStr / Display of MarkerOperator (a public entry point of its own; the marker parser recognises `not in` by itself): the operators
+    # of the grammar, `not` + white space + `in` with any non-empty white space, and nothing else
+    OPS = {'==': 'Equal', '!=': 'NotEqual', '>': 'GreaterThan', '>=': 'GreaterEqual', '<': 'LessThan', '<=': 'LessEqual', '~=': 'TildeEqual', 'in': 'In',
+           'not in': 'NotIn', 'not  in': 'NotIn', 'not\tin': 'NotIn', 'not \t in': 'NotIn', 'not\nin': 'NotIn',
+           'notin': None, 'not': None, 'not i': None, ' in': None, 'in ': None, 'not in ': None, ' not in': None, '=': None, '===': None, '=>': None, '': None, 'IN': None, 'Not in': None, 'not\u3000in': 'NotIn'}
+    for text, want in OPS.items():
+        r = sess.ask(['opparse', S(text)])
+        ctx.oracle_cases += 1
+        got = unS(r[1]) if r[0] == 'ok' else None
+        if got != want:
+            ctx.failure('MarkerOperator::from_str(%r) gives %r; the grammar reads %r' % (text, got, want), {'entry': 'MarkerOperator::from_str', 'input': text})
+        elif r[0] == 'ok':
+            shown = unS(r[2])
+            back = sess.ask(['opparse', S(shown)])
+            if back[0] != 'ok' or unS(back[1]) != got:
+                ctx.failure('Display of the operator %s is %r, which does not parse back to it' % (got, shown), {'entry': 'MarkerOperator::from_str', 'input': shown})
     for n in range(n_der):
         d = reqgen.gen_derivation(ctx.rng)
         canon_marker = reqgen.canonical_marker(ctx.rng, d)
